@@ -63,11 +63,19 @@ def main():
           and (res.get("tests_passed_patched") or 0) >= 64 and res.get("tests_failed_patched") == 0)
     res["confirmed"] = bool(ok)
     print(json.dumps(res, indent=1))
+    if not ok and (VERIF / "seeded" / seed_id / "meta.json").exists() and src.resolve() == (VERIF / "seeded" / seed_id).resolve():
+        # re-confirmation of a filed seed that no longer breaks the property on the current /repo
+        # (a later repair made it equivalent) or no longer applies: record that, keep the files
+        meta["obsolete"] = {"reason": "no longer applies" if not res.get("patch_applies") else
+                            "demo passes with the patch on the current /repo HEAD", "confirmation": res}
+        (VERIF / "seeded" / seed_id / "meta.json").write_text(json.dumps(meta, indent=1) + "\n")
     if ok:
+        meta.pop("obsolete", None)
         dst = VERIF / "seeded" / seed_id
         dst.mkdir(parents=True, exist_ok=True)
-        shutil.copy(src / "patch.diff", dst / "patch.diff")
-        shutil.copy(src / "demo.py", dst / "demo.py")
+        if src.resolve() != dst.resolve():
+            shutil.copy(src / "patch.diff", dst / "patch.diff")
+            shutil.copy(src / "demo.py", dst / "demo.py")
         meta["confirmed_by"] = ("harness/confirm_seed.py on a scratch worktree of /repo HEAD "
                                 + subprocess.run("git -C /repo rev-parse --short HEAD", shell=True, capture_output=True,
                                                  text=True).stdout.strip())
